@@ -460,7 +460,14 @@ class Evo:
         self.d["structures"].append({"name": nm, "properties": props})
         self.new_structs.append(nm)
         self.touched.add(nm)
-        self.log.append("E11 %s anonymous literals with special properties" % nm)
+        # ... and the literal-typed properties are INHERITED: one child extends the structure, another
+        # mixes it in (plugins copy inherited properties into every child)
+        for how in ("extends", "mixins"):
+            cn = self.name(True)
+            self.d["structures"].append({"name": cn, how: [R(nm)], "properties": [{"name": "ownNote", "type": B("string"), "optional": True}]})
+            self.new_structs.append(cn)
+            self.touched.add(cn)
+        self.log.append("E11 %s anonymous literals with special properties (+ an extending and a mixing child)" % nm)
 
     def E12(self, static=True):
         """properties that reference OPEN enumerations (incl. the integer-based ones no property uses
@@ -503,6 +510,10 @@ class Evo:
         for suffix, t in kinds.items():
             props.append({"name": "required" + suffix, "type": copy.deepcopy(t)})
             props.append({"name": "optional" + suffix, "type": copy.deepcopy(t), "optional": True})
+        # names with a digit directly in front of a capital letter (word splitting in the name derivations)
+        props.append({"name": "utf16Offset", "type": B("uinteger")})
+        props.append({"name": "sha256Digest", "type": B("string"), "optional": True})
+        props.append({"name": "ipv6Address", "type": {"kind": "or", "items": [B("string"), NUL]}})
         self.d["structures"].append({"name": nm, "properties": props})
         self.new_structs.append(nm)
         self.touched.add(nm)
